@@ -328,6 +328,10 @@ var ListenerKinds = []string{"udp", "tcp", "gnet", "http", "fasthttp"}
 var TlsListenerKinds = []string{"tls", "https", "quic"}
 
 // NewRouterEnv builds everything for a cfgspec. extra listeners (tls/https/quic) are not started here.
+// BeforeRun, when set, is called with the environment (ports chosen, fake upstreams up, configuration files written)
+// immediately before the router is started (kind startrace: clients that are already sending while run() executes).
+var BeforeRun func(env *RouterEnv)
+
 func NewRouterEnv(spec string) (*RouterEnv, error) {
 	env := &RouterEnv{Spec: spec, Ports: map[string]int{}, behaviour: map[string]Behaviour{}, queries: map[string][]UpQuery{}}
 	parts := map[string]string{}
@@ -410,6 +414,19 @@ func NewRouterEnv(spec string) (*RouterEnv, error) {
 					}
 					own[j%2].WriteString(l)
 				}
+			}
+			if n, _ := strconv.Atoi(parts["B"]); n > 0 {
+				// B=<n>: every set additionally lists a bulk file of n entries under a name space no query uses
+				// (a domain set that takes a while to load: start-up ordering, kind startrace)
+				var sb strings.Builder
+				for j := 0; j < n; j++ {
+					fmt.Fprintf(&sb, "domain:bulk%d.s%d.bulk-entries.invalid\n", j, i)
+				}
+				fp := filepath.Join(dir, fmt.Sprintf("bulk%d.txt", i))
+				if err := os.WriteFile(fp, []byte(sb.String()), 0644); err != nil {
+					return nil, err
+				}
+				files = append(files, fp)
 			}
 			for k := 0; k < 2; k++ {
 				fp := filepath.Join(dir, fmt.Sprintf("set%d_%d.txt", i, k))
@@ -506,6 +523,9 @@ func NewRouterEnv(spec string) (*RouterEnv, error) {
 			sc.Tls.DebugUseTempCert = true
 		}
 		cfg.Servers = append(cfg.Servers, sc)
+	}
+	if BeforeRun != nil {
+		BeforeRun(env)
 	}
 	r, err := router.VerifRun(cfg)
 	if err != nil {
